@@ -126,6 +126,10 @@ func (o *WireOracles) peerTPs(a *wConnAcct, dir int) ([]TapTP, bool) {
 func (o *WireOracles) onSend(rec *DgramRec, data []byte) {
 	now := o.w.NowNS()
 	for _, p := range rec.Pkts {
+		if p.Type == TapUnknown && p.Reset {
+			o.res.Probe("stateless-reset-on-the-wire")
+			continue
+		}
 		if p.Type == TapUnknown {
 			o.report("C05", "a packet on the wire cannot be opened with independently derived keys", "%s#%d offset %d (%d bytes): no known connection/key opens it", dirName(p.Dir), p.Ord, p.Off, p.Size)
 			continue
